@@ -17,30 +17,30 @@ import (
 
 // Opts selects the configuration of the system under test.
 type Opts struct {
-	Path       string // directory path; "" = in-memory directory
-	Unsafe     bool
-	SegVersion int // 1 or 2
-	KeepN      int
-	MinMemMerge int    // MinSegmentsForInMemoryMerge; 0 = default (2)
-	Merge      string // "none" | "eager2" | "eager3" | "default"
-	Faults     []Fault
-	NoMmap     bool
-	IntroGates bool // gate the introducer at the start of a persist swap / merge introduction
-	NapUnderNumFiles int // PersisterNapUnderNumFiles (0 = default 1000): small values make the persister wait for the merger
-	ReuseBatch bool // every caller re-uses one Batch object (Reset between calls)
+	Path             string // directory path; "" = in-memory directory
+	Unsafe           bool
+	SegVersion       int // 1 or 2
+	KeepN            int
+	MinMemMerge      int    // MinSegmentsForInMemoryMerge; 0 = default (2)
+	Merge            string // "none" | "eager2" | "eager3" | "default"
+	Faults           []Fault
+	NoMmap           bool
+	IntroGates       bool // gate the introducer at the start of a persist swap / merge introduction
+	NapUnderNumFiles int  // PersisterNapUnderNumFiles (0 = default 1000): small values make the persister wait for the merger
+	ReuseBatch       bool // every caller re-uses one Batch object (Reset between calls)
 }
 
 // Sys is one incarnation of a writer under the controller.
 type Sys struct {
-	C    *Ctl
-	O    Opts
-	Dir  *Dir
-	W    *bluge.Writer
-	Cfg  bluge.Config
+	C   *Ctl
+	O   Opts
+	Dir *Dir
+	W   *bluge.Writer
+	Cfg bluge.Config
 
 	mu        sync.Mutex
-	curUID    map[string]int   // client proc -> uid of the batch in flight
-	segUID    map[uint64]int   // segment id allocated by prepare -> uid
+	curUID    map[string]int // client proc -> uid of the batch in flight
+	segUID    map[uint64]int // segment id allocated by prepare -> uid
 	pendKind  string
 	pendSeg   uint64
 	pendSkip  bool
@@ -389,12 +389,12 @@ type DictEnt struct {
 }
 
 type Obs struct {
-	Count  int   `json:"count"`
-	Docs   []Doc `json:"docs"`   // match-all enumeration with stored fields
-	ByID   []Doc `json:"byid"`   // union of per-id term lookups
-	Dict   []DictEnt `json:"dict"` // dictionary scan of field _id (deep observations only)
-	Sorted []Doc `json:"sorted"` // doc values: sorted by u
-	Err    string `json:"err"`
+	Count  int       `json:"count"`
+	Docs   []Doc     `json:"docs"`   // match-all enumeration with stored fields
+	ByID   []Doc     `json:"byid"`   // union of per-id term lookups
+	Dict   []DictEnt `json:"dict"`   // dictionary scan of field _id (deep observations only)
+	Sorted []Doc     `json:"sorted"` // doc values: sorted by u
+	Err    string    `json:"err"`
 }
 
 // ErrObs is an observation that failed as a whole (no nil slices: the trace reader rejects JSON null).
